@@ -633,6 +633,7 @@ func (s *sess) replayEntries(b *behaviour) {
 	var live []entry
 	prevLen := c.Pre
 	disc := 0
+	readOnly := false
 	lastSize, _ := s.app.Size()
 	step := func(si int) bool {
 		st := &b.Ops[si]
@@ -730,8 +731,9 @@ func (s *sess) replayEntries(b *behaviour) {
 			case st.Op == "reopen" && rew && c.Pre == 0 && sz > lastSize:
 				s.res.Violate(sigReopen(s.kind), text, s.ctx(b, si, nil))
 				return false
-			case st.Op == "reopen" && c.Pre > 0 && sz > lastSize:
-				// preallocated: size from the files
+			case st.Op == "reopen" && c.Pre > 0:
+				// preallocated: the size is whatever the files hold (with compressed entries overflowing their chunk it
+				// may even be smaller); the entries must still be readable at their handles (checked below)
 			default:
 				s.res.Violate(s.kind+"."+st.Op+":size-changed", text, s.ctx(b, si, nil))
 				return false
@@ -739,6 +741,20 @@ func (s *sess) replayEntries(b *behaviour) {
 		}
 		lastSize = sz
 		prevLen = len(st.Ideal)
+		switch st.Op {
+		case "switchro":
+			readOnly = true
+		case "reopen":
+			readOnly = false
+		}
+		// Known finding B (file part of a read not clamped at fileOffset) makes a compressed read that straddles
+		// fileOffset take stale/preallocated bytes as the entry's length prefix (allocations of up to 4 GiB): where its
+		// precondition holds, entries are read back from the file only. Buffered reads after rewinds are byte mode's job.
+		if (rew || c.Pre > 0) && !readOnly {
+			if s.app.Flush() == nil && s.app.Sync() == nil {
+				s.res.Count("entry-mode:flushed-before-reads-after-rewind-or-prealloc", 1)
+			}
+		}
 		// every live entry at or after the discard mark is readable at its handle, with exact and with longer buffers
 		for _, e := range live {
 			if e.abs < disc {
